@@ -323,7 +323,7 @@ def checkLine (f : Fields) (ans : Fields) (panicked : Bool) : Verdict :=
       let v := v.add ((getF ans "BOR" == "1") == mro.isNone) "M:bor"
       -- the same line asked again after OTHER lines were asked of the same analysis object must give the same
       -- answers (a result remembered across calls would show here); it counts against the three line properties
-      let v := (((v.add (getF ans "REP" != "0") "S:C03").add (getF ans "REP" != "0") "S:C05").add (getF ans "REP" != "0") "S:C06")
+      let v := (((v.add (getF ans "REP" == "1") "S:C03").add (getF ans "REP" == "1") "S:C05").add (getF ans "REP" == "1") "S:C06")
       -- Spec C03
       let perChar := lineSegs.map (fun s => (c.getD s.start .ON, l.getD s.start 0))
       let l1 := Spec.lineLevels pl perChar
